@@ -62,9 +62,11 @@ namespace Givaro {
     template<>
     inline
     typename ModularExtended<double>::Element&
-    ModularExtended<double>::init<const int64_t> (Element& x, const int64_t y) const
+    ModularExtended<double>::init<int64_t> (Element& x, const int64_t y) const
     {
-        x = static_cast<Element>(std::abs(y) % _lp);
+        // (specialised on the deduced type int64_t: init<const int64_t> is never selected by a call)
+        const uint64_t uy = (y < 0) ? uint64_t(0) - static_cast<uint64_t>(y) : static_cast<uint64_t>(y);
+        x = static_cast<Element>(uy % _lp);
         if (y < 0) negin(x);
         return x;
     }
@@ -73,7 +75,7 @@ namespace Givaro {
     template<>
     inline
     typename ModularExtended<double>::Element&
-    ModularExtended<double>::init<const uint64_t> (Element& x, const uint64_t y) const
+    ModularExtended<double>::init<uint64_t> (Element& x, const uint64_t y) const
     {
         return x = static_cast<Element>(y % (uint64_t)(_lp));
     }
@@ -82,9 +84,32 @@ namespace Givaro {
     template<>
     inline
     typename ModularExtended<double>::Element&
-    ModularExtended<double>::init<const Integer &> (Element& x, const Integer& y) const
+    ModularExtended<double>::init<Integer> (Element& x, const Integer y) const
     {
-        x = static_cast<Element>(y % _lp);
+        Integer t;
+        Integer::mod(t, y, Integer(_lp)); // canonical remainder in [0,p)
+        return x = static_cast<Element>(t);
+    }
+
+    template<>
+    template<>
+    inline
+    typename ModularExtended<double>::Element&
+    ModularExtended<double>::init<double> (Element& x, const double y) const
+    {
+        // fmod is exact; reduce() is only meant for |y| < p^2
+        x = std::fmod(y, _p);
+        if (x < 0) x += _p;
+        return x;
+    }
+
+    template<>
+    template<>
+    inline
+    typename ModularExtended<double>::Element&
+    ModularExtended<double>::init<float> (Element& x, const float y) const
+    {
+        x = std::fmod(static_cast<double>(y), _p);
         if (x < 0) x += _p;
         return x;
     }
@@ -118,7 +143,8 @@ namespace Givaro {
     typename ModularExtended<float>::Element&
     ModularExtended<float>::init(typename ModularExtended<float>::Element& r, const int32_t a) const
     {
-        r = static_cast<Element>(std::abs(a) % _lp);
+        const uint32_t ua = (a < 0) ? uint32_t(0) - static_cast<uint32_t>(a) : static_cast<uint32_t>(a);
+        r = static_cast<Element>(ua % uint32_t(_lp));
         if (a < 0) negin(r);
         return r;
     }
@@ -138,7 +164,8 @@ namespace Givaro {
     typename ModularExtended<float>::Element&
     ModularExtended<float>::init(typename ModularExtended<float>::Element& r, const int64_t a) const
     {
-        r = static_cast<Element>(std::abs(a) % int64_t(_lp));
+        const uint64_t ua = (a < 0) ? uint64_t(0) - static_cast<uint64_t>(a) : static_cast<uint64_t>(a);
+        r = static_cast<Element>(ua % uint64_t(_lp));
         if (a < 0) negin(r);
         return r;
     }
@@ -156,10 +183,23 @@ namespace Givaro {
     template<>
     inline
     typename ModularExtended<float>::Element&
-    ModularExtended<float>::init(typename ModularExtended<float>::Element& r, const Integer& a) const
+    ModularExtended<float>::init(typename ModularExtended<float>::Element& r, const Integer a) const
     {
-        r = static_cast<Element>(a % _lp);
-        if (a < 0) negin(r);
+        // (taken by value: a specialisation on `const Integer&` is never selected by a call)
+        Integer t;
+        Integer::mod(t, a, Integer(_lp)); // canonical remainder in [0,p)
+        return r = static_cast<Element>(static_cast<double>(t));
+    }
+
+    template<>
+    template<>
+    inline
+    typename ModularExtended<float>::Element&
+    ModularExtended<float>::init(typename ModularExtended<float>::Element& r, const float a) const
+    {
+        // fmod is exact; reduce() is only meant for |a| < p^2
+        r = std::fmod(a, _p);
+        if (r < 0.f) r += _p;
         return r;
     }
 
